@@ -108,15 +108,19 @@ structure PriceRow where
 def PriceRow.hits (names : Nat → List StationId) (sid : StationId) (p : ChargerId) (r : PriceRow) : Bool :=
   r.valid && (names r.key).contains sid && r.plug == p
 
+/-- running maximum of the keys seen -/
+def maxKey (m : Option Nat) (r : PriceRow) : Option Nat :=
+  match m with
+  | none => some r.key
+  | some k => some (max k r.key)
+
 /-- the row of a window that decides the price of `(sid, p)`: rows of one key are accumulated
     latest-wins (`_add_row_to_this_update`); keys are merged in sorted order
     (`_map_to_station_ids`), so the greatest key that names the station and plug prevails. -/
 def winner (names : Nat → List StationId) (rows : List PriceRow) (sid : StationId) (p : ChargerId) :
     Option PriceRow :=
   let cands := rows.filter (PriceRow.hits names sid p)
-  match cands.foldl (fun (m : Option Nat) r => match m with
-      | none => some r.key
-      | some k => some (max k r.key)) none with
+  match cands.foldl maxKey none with
   | none => none
   | some k => (cands.filter (fun r => r.key == k)).getLast?
 
